@@ -169,6 +169,11 @@ class InterpMixin:
             else:
                 dotted = f"{modname}.{a.name}"
                 v = self.models.get(dotted + "!obj", None)
+                if v is None and modname in self.models and not isinstance(self.models[modname], Opaque):
+                    try:
+                        v = getattr(self.models[modname], a.name)  # `from functools import reduce` with a modelled module object
+                    except (AttributeError, Unsupported):
+                        v = None
                 if v is None:
                     v = Opaque(dotted)
             self.store_name(scope, a.asname or a.name, v)
